@@ -345,6 +345,13 @@ pub fn build_case<K: Kind>(case: &PlanCase) -> Result<Built<K>, String> {
         world: case.world.clone(),
         cfg: case.space.clone(),
         rec: rec.clone(),
+        space: space.clone(),
+        sballs: case
+            .world
+            .sballs
+            .iter()
+            .map(|(c, r)| (K::dec(&case.space, c), *r))
+            .collect(),
         _k: PhantomData,
     });
     Ok(Built {
